@@ -158,6 +158,7 @@ def gen_case(rng, nd=None):
     case["forms"] = archlib.gen_forms(rng)
     if case["forms"]["dtype"] == "dictmix":      # mixed objective / measures precision: fixed-cell runner only
         case["forms"]["dtype"] = "dictsol"
+    archlib.sprinkle(rng, case)     # checkpoints: continue on a pickled / deep-copied archive
     return case
 
 
@@ -535,6 +536,8 @@ class Run:
                         self.compare(post, int(self.a.capacity), where)
                 elif op["op"] == "bounds":
                     f = self.bounds_check(self.obs(), where)
+                elif op["op"] == "ckpt":
+                    self.a = archlib.checkpoint(self.a, op.get("how", "pickle"))
                 elif op["op"] == "bad":
                     f = self.do_bad(op, where)
                 if f is not None:
